@@ -396,3 +396,88 @@ def rust_probe_source_numbers(cases, inv_idx, bindings_path):
         out.append(f"    }} }} /*{c.tag}*/")
     out.append("}")
     return "\n".join(out), missing
+
+
+# --------------------------------------------------------------------------------------------------
+# compile-only pipeline (C01 / C06 / C08 / C10): bindings with their embedded assertions must type-check
+
+def use_contexts(c):
+    """Declarations that use record `c` in every position the property lists."""
+    t, n = c.tag, c.c_name()
+    flex = any(k in ("flex",) for k in c.atoms)
+    by_value = "" if flex else f"{n} m; {n} a[2]; "
+    fn = f"void {t}_fp({n} *p);" if flex else f"{n} {t}_f({n} v, {t}_t *p, const {n} *cp);"
+    glob = "" if flex else f"extern {n} {t}_g; extern const {n} {t}_cg;"
+    return (f"typedef {n} {t}_t; struct {t}_use {{ {by_value}{n} *p; {t}_t *tp; int (*cb)({n} *); }};\n{fn}\n{glob}")
+
+
+def compile_batches(batches, wd, flags, lang="c", contexts=True, edition="2021", prelude="", extra_src="", timeout=180):
+    """batches: [(name, [case with .tag/.source()])]. Returns ({tag: None | [error messages]}, {name: gen result})."""
+    os.makedirs(wd, exist_ok=True)
+    ext = "h" if lang == "c" else "hpp"
+    cl = ["--", "-x", "c++", "-std=c++14"] if lang == "cpp" else []
+
+    def header_of(cases):
+        parts = []
+        for c in cases:
+            parts.append(c.source())
+            if contexts and hasattr(c, "atoms"):
+                parts.append(use_contexts(c))
+        return "\n".join(parts) + "\n" + extra_src
+
+    jobs = []
+    for name, cases in batches:
+        hp = os.path.join(wd, f"{name}.{ext}")
+        with open(hp, "w") as f:
+            f.write(header_of(cases))
+        jobs.append({"id": name, "args": [hp, "--formatter", "prettyplease"] + list(flags) + cl, "timeout": timeout})
+    gen = common.run_jobs(jobs, wd, timeout=timeout)
+
+    def one(b):
+        name, cases = b
+        res = {c.tag: None for c in cases}
+        g = gen[name]
+        live = list(cases)
+        for attempt in range(5):
+            if g["status"] != "ok":
+                for c in live:
+                    res[c.tag] = [f"bindgen: {g['status']} {g.get('err') or g.get('panic') or ''}"[:300]]
+                return res
+            bpath = os.path.join(wd, f"{name}_b{attempt}.rs")
+            with open(bpath, "w") as f:
+                f.write(prelude + g["text"])
+            ok, tags, msgs = rustc_diagnose(bpath, os.path.join(wd, f"{name}_out"), prelude + g["text"], bpath, mode="lib", edition=edition)
+            if ok:
+                return res
+            bad = [c for c in live if c.tag in tags]
+            bt = getattr(rustc_diagnose, "last_by_tag", {})
+            if not bad:
+                if len(live) == 1:
+                    res[live[0].tag] = sorted(set(msgs))[:4]
+                    return res
+                # cannot attribute by span: split in halves
+                half = len(live) // 2
+                sub = {}
+                for k, part in enumerate((live[:half], live[half:])):
+                    r, _ = compile_batches([(f"{name}_s{attempt}{k}", part)], wd, flags, lang, contexts, edition, prelude, extra_src, timeout)
+                    sub.update(r)
+                res.update(sub)
+                return res
+            for c in bad:
+                res[c.tag] = sorted(set(bt.get(c.tag) or msgs[:2]))[:4]
+            live = [c for c in live if c.tag not in tags]
+            if not live:
+                return res
+            hp = os.path.join(wd, f"{name}_r{attempt}.{ext}")
+            with open(hp, "w") as f:
+                f.write(header_of(live))
+            g = common.run_jobs([{"id": name, "args": [hp, "--formatter", "prettyplease"] + list(flags) + cl, "timeout": timeout}], wd, threads=1, timeout=timeout)[name]
+        for c in live:
+            if res[c.tag] is None:
+                res[c.tag] = ["unattributed after 5 rounds"]
+        return res
+
+    out = {}
+    for r in common.pmap(one, batches):
+        out.update(r)
+    return out, gen
